@@ -395,19 +395,70 @@ func (w *wireCtx) build(fn *ssa.Function, roots map[ssa.Value]bool, depth int) (
 	for _, b := range fn.Blocks {
 		entry[b] = w.nfa.state()
 	}
-	w.nfa.edge(start, entry[fn.Blocks[0]], "")
-	for _, b := range fn.Blocks {
-		if b == fn.Recover {
-			continue
+	// constant-trip-count loops are unrolled into layers (wire_unroll.go)
+	loops := constLoops(fn)
+	inLoop := map[*ssa.BasicBlock]*constLoop{}
+	layers := map[*constLoop][]map[*ssa.BasicBlock]int{}
+	for h, l := range loops {
+		inLoop[h] = l
+		for b := range l.body {
+			inLoop[b] = l
 		}
-		cur := entry[b]
+		ls := make([]map[*ssa.BasicBlock]int, l.trips+1)
+		for k := range ls {
+			ls[k] = map[*ssa.BasicBlock]int{h: w.nfa.state()}
+			for b := range l.body {
+				ls[k][b] = w.nfa.state()
+			}
+		}
+		layers[l] = ls
+	}
+	// stateOf: where control goes when block `from`, processed in layer `layer` of its loop (if any),
+	// takes its successor #i; -1 = that edge does not exist in this layer
+	stateOf := func(from *ssa.BasicBlock, i int, layer int) int {
+		s := from.Succs[i]
+		l := inLoop[from]
+		if l == nil {
+			if l2 := loops[s]; l2 != nil {
+				return layers[l2][0][s] // entering an unrolled loop
+			}
+			return entry[s]
+		}
+		if from == l.header {
+			if i == l.bodyIdx {
+				if layer < l.trips {
+					return layers[l][layer][s]
+				}
+				return -1
+			}
+			if layer == l.trips {
+				return entry[s]
+			}
+			return -1
+		}
+		switch {
+		case s == l.header:
+			if layer+1 <= l.trips {
+				return layers[l][layer+1][s]
+			}
+			return -1
+		case l.body[s]:
+			return layers[l][layer][s]
+		}
+		return entry[s] // leaving the loop (error exit, break)
+	}
+	first := entry[fn.Blocks[0]]
+	if l := loops[fn.Blocks[0]]; l != nil {
+		first = layers[l][0][fn.Blocks[0]]
+	}
+	w.nfa.edge(start, first, "")
+	process := func(b *ssa.BasicBlock, cur int, layer int) {
 		for _, in := range b.Instrs {
 			switch x := in.(type) {
 			case *ssa.Call:
 				cur = w.call(fn, x, d, cur, depth)
 			case *ssa.If:
-				cond, _ := Edge{b, 0}.Cond()
-				for i, s := range b.Succs {
+				for i := range b.Succs {
 					e := Edge{b, i}
 					c2, truth := e.Cond()
 					// cut error exits
@@ -417,11 +468,14 @@ func (w *wireCtx) build(fn *ssa.Function, roots map[ssa.Value]bool, depth int) (
 					if val, known := w.evalProtoCond(c2); known && val != truth {
 						continue
 					}
-					w.nfa.edge(cur, entry[s], "")
+					if to := stateOf(b, i, layer); to >= 0 {
+						w.nfa.edge(cur, to, "")
+					}
 				}
-				_ = cond
 			case *ssa.Jump:
-				w.nfa.edge(cur, entry[b.Succs[0]], "")
+				if to := stateOf(b, 0, layer); to >= 0 {
+					w.nfa.edge(cur, to, "")
+				}
 			case *ssa.Return:
 				// a return that yields a non-nil error constant is a failure exit
 				fail := false
@@ -445,6 +499,18 @@ func (w *wireCtx) build(fn *ssa.Function, roots map[ssa.Value]bool, depth int) (
 				// dead end
 			}
 		}
+	}
+	for _, b := range fn.Blocks {
+		if b == fn.Recover {
+			continue
+		}
+		if l := inLoop[b]; l != nil {
+			for k := 0; k <= l.trips; k++ {
+				process(b, layers[l][k][b], k)
+			}
+			continue
+		}
+		process(b, entry[b], 0)
 	}
 	return start, end
 }
